@@ -6,8 +6,7 @@ at every knot from both sides, for every multi-index up to total order p+1, vers
 `Obj.derivativeCall` (dispatch `curveOutcome` / `surfaceOutcome` on top of `derivativeGeneric`,
 `curveDerivativeRational`, `surfaceDerivativeRational`); `get_derivative_spline` (all directions, periodic
 too) versus `Obj.getDerivativeSpline`; `tangent`, `Surface.normal`, `Curve.binormal`, `Curve.normal`
-versus the un-normalised model vectors (normalised in floats on this side).  The model mirrors the code,
-quirks included.
+versus the un-normalised model vectors (normalised in floats on this side).  The model mirrors the code.
 
 Source-derived obligations: `regenerate` translates the current `Curve.derivative` / `Surface.derivative`
 (harness/translate/deriv_dispatch.py) into lean/Splipy/Generated/C03.lean and builds
@@ -55,12 +54,13 @@ ASSUMPTIONS = ['parameters of closed-form (rational, total order 2-3) calls are 
 TRUSTED_EXTRA = ['harness/translate/deriv_dispatch.py (Python ast -> Dispatch.Table and closed-form expressions, fails closed); '
                  'the semantics Splipy.Dispatch.Table.outcome of the table language']
 
-# known-finding classes (shared with the translator's obligations)
-K_LIST = deriv_dispatch.K_LIST                      # rational Surface.derivative, d not a tuple -> zeros
-K_ABOVE = deriv_dispatch.K_ABOVE                    # closed forms: `above` list/tuple used by truthiness
-K_LEFT = deriv_dispatch.K_LEFT                      # rational left limit at a C^-1 knot uses right-hand n, W
+# finding classes (shared with the translator's obligations).  K_LIST, K_ABOVE, K_LEFT, K_ZERO were repaired in
+# /repo (cd5762c, ea90458, 9f6e350): the labels stay so that a returning defect is reported under its name.
+K_LIST = deriv_dispatch.K_LIST                      # rational Surface.derivative, d not a tuple -> zeros   (fixed)
+K_ABOVE = deriv_dispatch.K_ABOVE                    # closed forms: `above` list/tuple used by truthiness   (fixed)
+K_LEFT = deriv_dispatch.K_LEFT                      # rational left limit at a C^-1 knot used right-hand n, W (fixed)
 K_TENSOR = 'rational-surface-closed-form-tensor-false-indexerror'
-K_ZERO = 'rational-derivative-order-zero-returns-zero'
+K_ZERO = 'rational-derivative-order-zero-returns-zero'                                                  # (fixed)
 K_DSNAN = 'derivative-spline-nan-at-discontinuity'
 K_DSONE = 'derivative-spline-periodic-single-controlpoint'   # C[i,i] overwritten by C[i,(i+1)%n] when n == 1
 
@@ -693,7 +693,8 @@ def _path(s):
         if pd == 2 and o['rational'] and 2 <= tot <= 3:
             if not s['tensor']:
                 return 'closed-surface-indexerror'
-            return 'closed-surface' if (s['d'][0] == 'tup' and len(items) == 2) else 'closed-surface-zeros'
+            # `derivs = tuple(ensure_listlike(d, 2))`: every spelling of a pair reaches the branch table
+            return 'closed-surface' if len(full) == 2 else 'closed-surface-zeros'
     if o['rational'] and tot > 1:
         return 'refused'
     if o['rational'] and tot == 1:
@@ -846,7 +847,8 @@ def _obligations(lean_dir, info):
     good = [nm for nm in names if nm not in failed]
     if good:
         if ok:
-            axioms = leanproof.print_axioms(OBL_MODULE, good)
+            pre = 'Splipy.Generated.C03.'
+            axioms = {k[len(pre):]: v for k, v in leanproof.print_axioms(OBL_MODULE, [pre + nm for nm in good]).items()}
         else:
             blocks = []
             for j, (st, nm) in enumerate(starts):
